@@ -147,6 +147,7 @@ func (f *Query) UnmarshalXML(d *xml.Decoder, start xml.StartElement) error {
 			After   string   `xml:"after"`
 			Before  struct {
 				XMLName xml.Name `xml:"before"`
+				ID      string   `xml:",chardata"`
 			}
 		}
 	}{}
@@ -178,6 +179,11 @@ func (f *Query) UnmarshalXML(d *xml.Decoder, start xml.StartElement) error {
 	f.Limit = s.Set.Max
 
 	f.Last = s.Set.Before.XMLName.Local == "before"
+	if f.Last {
+		f.PageID = s.Set.Before.ID
+	} else {
+		f.PageID = s.Set.After
+	}
 	f.Reverse = s.Flip.XMLName.Local == "flip-page"
 	return nil
 }
